@@ -454,3 +454,16 @@ def test_c19_field_object_taken_over_by_a_second_class():
 def test_c16_form_feed_is_text_not_a_line_end():
     src = 'char* s = "a\x0cb"; /* page\x0bbreak */\n'
     assert xo.specialize_source(src, "cpu_serial") == src
+
+
+def test_c17_pointer_arguments_bytearray_buffer_and_byte_order():
+    c2 = xo.ContextCpu()
+    c2.add_kernels(
+        sources=["void setfirst(double* x, double v){ x[0]=v; }"],
+        kernels={"setfirst": xo.Kernel(args=[xo.Arg(xo.Float64, pointer=True, name="x"), xo.Arg(xo.Float64, name="v")])},
+    )
+    xa = xo.Float64[:]([1, 2, 3], _buffer=BufferByteArray(capacity=256, context=c2))
+    c2.kernels.setfirst(x=xa, v=42.0)
+    assert xa[0] == 42.0
+    with pytest.raises(TypeError):
+        c2.kernels.setfirst(x=np.array([1.0, 2.0], dtype=">f8"), v=1.0)
